@@ -16,6 +16,20 @@ package vestingsc
 //@   ensures err == nil ==> left == d.Amount - d.Vested
 //@   modifies nothing
 
+// The linear schedule runs from the last time tokens really moved (Move) to the pool's end:
+// the vesting ratio of a trigger at `now` is (now - Move) / (end - Move).
+//@ func (*destination).full
+//@   prop C16
+//@   requires d != nil && end >= 0 && d.Move >= 0
+//@   ensures full == end - d.Move
+//@   modifies nothing
+
+//@ func (*destination).period
+//@   prop C16
+//@   requires d != nil && now >= 0 && d.Move >= 0
+//@   ensures period == now - d.Move
+//@   modifies nothing
+
 //@ func (*destination).move
 //@   prop C16
 //@   requires d != nil
@@ -28,7 +42,7 @@ package vestingsc
 // "Tokens vested to a destination never exceed the amount assigned to it, never decrease"
 //@ func (*destination).unlock
 //@   prop C16
-//@   requires d != nil && d.Vested <= d.Amount
+//@   requires d != nil && d.Vested <= d.Amount && d.Move >= 0 && now >= 0 && end >= 0
 //@   ensures[within-left] err == nil ==> amount <= old(d.Amount) - old(d.Vested)
 //@   ensures[vested-le-amount] d.Vested <= d.Amount
 //@   ensures d.Vested >= old(d.Vested) && d.Amount == old(d.Amount)
@@ -58,7 +72,7 @@ package vestingsc
 // vest (trigger for one destination) pays a destination no more than what is left for it.
 //@ func (*vestingPool).vest
 //@   prop C16
-//@   requires vp != nil && (forall i in 0..len(vp.Destinations) :: vp.Destinations[i] != nil && vp.Destinations[i].Vested <= vp.Destinations[i].Amount)
+//@   requires vp != nil && now >= 0 && vp.StartTime >= 0 && vp.ExpireAt >= 0 && (forall i in 0..len(vp.Destinations) :: vp.Destinations[i] != nil && vp.Destinations[i].Vested <= vp.Destinations[i].Amount && vp.Destinations[i].Move >= 0)
 //@   ensures err == nil ==> $ntr == old($ntr) + 1 && $in[destID] - old($in[destID]) == old(vp.Balance) - vp.Balance
 //@   ensures forall i in 0..len(vp.Destinations) :: vp.Destinations[i].Vested <= vp.Destinations[i].Amount && vp.Destinations[i].Vested >= old(vp.Destinations[i].Vested)
 
